@@ -85,3 +85,216 @@ pub proof fn lemma_ins_strip(o: Seq<char>, i: Seq<char>, w: spec_fn(char) -> boo
     }
 }
 
+
+// =============================================================================================
+// C15 clause 2: indentation.  The postcondition is a predicate over the OUTPUT TEXT ALONE:
+// a checker automaton reads the text left to right, keeps the stack of open scopes with a flag
+// "broken over several lines" (a scope is broken iff its opener is directly followed by a line
+// break), counts the spaces after every line break, and at the first non-space character of the
+// line demands   spaces == 4 * (number of open broken scopes)
+// where a line that starts with the closer of a broken scope is written at its opener's depth,
+// and an opening brace may keep its one separating space.  No look-ahead, so run(o + w) is
+// run(o) continued over w.
+// =============================================================================================
+pub open spec fn is_opener(c: char) -> bool { c == '{' || c == '(' || c == '<' }
+pub open spec fn is_closer(c: char) -> bool { c == '}' || c == ')' || c == '>' }
+pub open spec fn partner(o: char) -> char { if o == '{' { '}' } else if o == '(' { ')' } else if o == '<' { '>' } else { '?' } }
+
+pub open spec fn cnt(s: Seq<bool>) -> int
+    decreases s.len()
+{
+    if s.len() == 0 { 0 } else { cnt(s.drop_last()) + if s.last() { 1int } else { 0int } }
+}
+
+pub struct RS {
+    pub s: Seq<bool>,   // open scopes, innermost last; true = broken over several lines
+    pub ind: int,       // -1: inside a line; n >= 0: n spaces seen since the last line break
+    pub lo: bool,       // the previous character was an opener
+    pub ok: bool,       // every completed indentation run so far was correct
+}
+
+pub open spec fn rs_init() -> RS { RS { s: Seq::empty(), ind: -1, lo: false, ok: true } }
+
+pub open spec fn step(r: RS, c: char) -> RS {
+    if c == ' ' {
+        RS { s: r.s, ind: if r.ind >= 0 { r.ind + 1 } else { r.ind }, lo: false, ok: r.ok }
+    } else {
+        let top = r.s.len() > 0 && r.s.last();
+        let d = cnt(r.s) - if is_closer(c) && top { 1int } else { 0int };
+        let good = r.ind < 0 || r.ind == 4 * d || (c == '{' && r.ind == 4 * d + 1);
+        let ok = r.ok && good;
+        if c == '\n' {
+            RS { s: if r.lo && r.s.len() > 0 { r.s.update(r.s.len() - 1, true) } else { r.s }, ind: 0, lo: false, ok: ok }
+        } else if is_opener(c) {
+            RS { s: r.s.push(false), ind: -1, lo: true, ok: ok }
+        } else if is_closer(c) {
+            RS { s: if r.s.len() > 0 { r.s.drop_last() } else { r.s }, ind: -1, lo: false, ok: ok }
+        } else {
+            RS { s: r.s, ind: -1, lo: false, ok: ok }
+        }
+    }
+}
+
+pub open spec fn run(o: Seq<char>) -> RS
+    decreases o.len()
+{
+    if o.len() == 0 { rs_init() } else { step(run(o.drop_last()), o.last()) }
+}
+
+/// the clause-2 postcondition: every indentation run is correct, all scopes are closed, and a
+/// trailing indentation run (text ending in a line break) is at depth zero
+pub open spec fn indentation_ok(o: Seq<char>) -> bool {
+    let r = run(o);
+    r.ok && r.s.len() == 0 && (r.ind == -1 || r.ind == 0)
+}
+
+// ---- input side: proper nesting -----------------------------------------------------------------
+pub open spec fn kst(s: Seq<char>, k: int) -> Seq<char>
+    decreases k
+{
+    if k <= 0 { Seq::empty() } else {
+        let p = kst(s, k - 1);
+        let c = s[k - 1];
+        if is_opener(c) { p.push(c) } else if is_closer(c) && p.len() > 0 { p.drop_last() } else { p }
+    }
+}
+
+pub open spec fn nested_upto(s: Seq<char>, k: int) -> bool
+    decreases k
+{
+    if k <= 0 { true } else {
+        nested_upto(s, k - 1)
+        && (is_closer(s[k - 1]) ==> kst(s, k - 1).len() > 0 && partner(kst(s, k - 1).last()) == s[k - 1])
+    }
+}
+
+pub open spec fn nested(s: Seq<char>) -> bool { nested_upto(s, s.len() as int) && kst(s, s.len() as int).len() == 0 }
+
+pub open spec fn ws_free(s: Seq<char>) -> bool { forall|i: int| 0 <= i < s.len() ==> s[i] != ' ' && s[i] != '\n' }
+
+pub open spec fn guard(s: Seq<char>) -> bool { nested(s) && ws_free(s) }
+
+pub proof fn lemma_nested_prefix(s: Seq<char>, n: int, m: int)
+    requires nested_upto(s, n), 0 <= m <= n
+    ensures nested_upto(s, m)
+    decreases n - m
+{
+    if m < n { lemma_nested_prefix(s, n, m + 1); }
+}
+
+// ---- linking the real state to the checker state ---------------------------------------------------
+/// the flags of the scopes of kind K, innermost last
+pub open spec fn proj(ks: Seq<char>, fs: Seq<bool>, kind: char) -> Seq<bool>
+    decreases ks.len()
+{
+    if ks.len() == 0 || fs.len() == 0 { Seq::empty() } else {
+        let p = proj(ks.drop_last(), fs.drop_last(), kind);
+        if ks.last() == kind { p.push(fs.last()) } else { p }
+    }
+}
+
+pub open spec fn braces_broken(ks: Seq<char>, fs: Seq<bool>) -> bool {
+    forall|i: int| 0 <= i < ks.len() && i < fs.len() && ks[i] == '{' ==> fs[i]
+}
+
+pub open spec fn mirrors(v: Seq<Scope>, p: Seq<bool>) -> bool {
+    v.len() == p.len() && forall|i: int| 0 <= i < v.len() ==> ((#[trigger] v[i]) is Big) == p[i]
+}
+
+/// the loop invariant of clause 2 (k characters consumed)
+pub open spec fn ind_inv(input: Seq<char>, k: int, output: Seq<char>, indent_level: int, tuple_level: Seq<Scope>, angle_level: Seq<Scope>) -> bool {
+    let r = run(output);
+    let ks = kst(input, k);
+    &&& r.ok
+    &&& r.s.len() == ks.len()
+    &&& cnt(r.s) == indent_level
+    &&& (r.ind == -1 || (r.ind == 4 * indent_level && !r.lo))
+    &&& (r.lo ==> r.s.len() > 0 && !r.s.last() && ks.last() != '{')
+    &&& braces_broken(ks, r.s)
+    &&& mirrors(tuple_level, proj(ks, r.s, '('))
+    &&& mirrors(angle_level, proj(ks, r.s, '<'))
+}
+
+pub broadcast proof fn lemma_run_push(o: Seq<char>, c: char)
+    ensures #[trigger] run(o.push(c)) == step(run(o), c)
+{
+    assert(o.push(c).drop_last() =~= o);
+}
+
+pub open spec fn add_spaces(r: RS, n: int) -> RS {
+    if n <= 0 { r } else { RS { s: r.s, ind: if r.ind >= 0 { r.ind + n } else { r.ind }, lo: false, ok: r.ok } }
+}
+
+pub broadcast proof fn lemma_run_spaces(o: Seq<char>, n: int)
+    ensures #[trigger] run(o + spaces(n)) == add_spaces(run(o), n)
+    decreases n
+{
+    if n <= 0 {
+        assert(o + spaces(n) =~= o);
+    } else {
+        lemma_run_spaces(o, n - 1);
+        assert(o + spaces(n) =~= (o + spaces(n - 1)).push(' '));
+        lemma_run_push(o + spaces(n - 1), ' ');
+    }
+}
+
+pub broadcast proof fn lemma_cnt_bounds(s: Seq<bool>)
+    ensures 0 <= #[trigger] cnt(s) <= s.len()
+    decreases s.len()
+{
+    if s.len() > 0 { lemma_cnt_bounds(s.drop_last()); }
+}
+
+pub broadcast proof fn lemma_cnt_push(s: Seq<bool>, b: bool)
+    ensures #[trigger] cnt(s.push(b)) == cnt(s) + if b { 1int } else { 0int }
+{
+    assert(s.push(b).drop_last() =~= s);
+}
+
+pub broadcast proof fn lemma_cnt_set_last(s: Seq<bool>)
+    requires s.len() > 0
+    ensures #[trigger] cnt(s.update(s.len() - 1, true)) == cnt(s) + if s.last() { 0int } else { 1int }
+{
+    assert(s.update(s.len() - 1, true).drop_last() =~= s.drop_last());
+}
+
+pub broadcast proof fn lemma_proj_push(ks: Seq<char>, fs: Seq<bool>, kind: char, c: char, b: bool)
+    requires ks.len() == fs.len()
+    ensures #[trigger] proj(ks.push(c), fs.push(b), kind) == if c == kind { proj(ks, fs, kind).push(b) } else { proj(ks, fs, kind) }
+{
+    assert(ks.push(c).drop_last() =~= ks);
+    assert(fs.push(b).drop_last() =~= fs);
+}
+
+pub broadcast proof fn lemma_proj_pop(ks: Seq<char>, fs: Seq<bool>, kind: char)
+    requires ks.len() == fs.len(), ks.len() > 0
+    ensures #[trigger] proj(ks.drop_last(), fs.drop_last(), kind) == if ks.last() == kind { proj(ks, fs, kind).drop_last() } else { proj(ks, fs, kind) },
+            ks.last() == kind ==> proj(ks, fs, kind).len() > 0 && proj(ks, fs, kind).last() == fs.last(),
+{
+    let p = proj(ks.drop_last(), fs.drop_last(), kind);
+    if ks.last() == kind { assert(p.push(fs.last()).drop_last() =~= p); }
+}
+
+pub broadcast proof fn lemma_proj_set_last(ks: Seq<char>, fs: Seq<bool>, kind: char)
+    requires ks.len() == fs.len(), ks.len() > 0
+    ensures #[trigger] proj(ks, fs.update(fs.len() - 1, true), kind)
+        == if ks.last() == kind { proj(ks, fs, kind).update(proj(ks, fs, kind).len() - 1, true) } else { proj(ks, fs, kind) }
+{
+    let fs2 = fs.update(fs.len() - 1, true);
+    assert(fs2.drop_last() =~= fs.drop_last());
+    let p = proj(ks.drop_last(), fs.drop_last(), kind);
+    if ks.last() == kind {
+        assert(p.push(true) =~= p.push(fs.last()).update(p.len() as int, true));
+    }
+}
+
+pub broadcast group group_indent {
+    lemma_cnt_bounds,
+    lemma_run_push,
+    lemma_run_spaces,
+    lemma_cnt_push,
+    lemma_cnt_set_last,
+    lemma_proj_push,
+    lemma_proj_pop,
+    lemma_proj_set_last,
+}
